@@ -7,6 +7,7 @@ import (
 	"flag"
 	"fmt"
 	"os"
+	"runtime/pprof"
 	"strconv"
 	"testing"
 
@@ -48,6 +49,17 @@ func Main(t *testing.T) {
 	o := &kernel.Options{Prop: *fProp, Tier: *fTier, Seed: seed, Workers: *fWorkers, Worker: *fWorker, From: *fFrom, To: *fTo,
 		Replay: *fReplay, Verbose: *fVerbose, VerifDir: *fDir, Runs: *fRuns, Selftest: *fSelftest, DeadlineS: *fDeadline}
 	code := 0
+	if pf := os.Getenv("POLYSIM_CPUPROF"); pf != "" {
+		if f, err := os.Create(pf); err == nil {
+			pprof.StartCPUProfile(f)
+			defer func() { pprof.StopCPUProfile(); f.Close() }()
+		}
+	}
+	stop := func() {
+		if os.Getenv("POLYSIM_CPUPROF") != "" {
+			pprof.StopCPUProfile()
+		}
+	}
 	switch {
 	case *fList:
 		for _, id := range kernel.IDs() {
@@ -63,5 +75,6 @@ func Main(t *testing.T) {
 		code = kernel.RunParent(o)
 	}
 	kernel.Cleanup()
+	stop()
 	os.Exit(code)
 }
